@@ -375,5 +375,5 @@ def run(ctx):
     jobs = [(fi, [k]) for fi in fis for k in range(6)]
     ctx.parallel(_worker_exh, jobs)
     ctx.exhaustive["all 6^5 reaction sequences for one send (plus one queued send)"] = True
-    ctx.parallel(_worker_random, [200] * 16 if quick else [20000] * 16)
-    ctx.parallel(_worker_drift, [40] * 8 if quick else [4000] * 16)
+    ctx.parallel(_worker_random, [600] * 16 if quick else [20000] * 16)
+    ctx.parallel(_worker_drift, [60] * 16 if quick else [4000] * 16)
